@@ -72,6 +72,9 @@ func (r *BatchedPrivateTokenRequest) Unmarshal(data []byte) bool {
 	}
 
 	l, offset := quicwire.ConsumeVarint(data[3:])
+	if offset < 0 || l > uint64(len(data)) {
+		return false
+	}
 	s.Skip(offset)
 	blindedRequests := make([]byte, l)
 	if !s.ReadBytes(&blindedRequests, len(blindedRequests)) {
